@@ -550,7 +550,12 @@ func (g *G) Bool() X {
 		return g.leafBool()
 	}
 	defer g.deeper()()
-	switch g.intn(32, "boolkind") {
+	switch g.intn(33, "boolkind") {
+	case 32:
+		if g.F.MySQL {
+			return g.matchAgainst()
+		}
+		return g.leafBool()
 	case 30, 31:
 		return g.spineChain()
 	case 0, 1, 2:
@@ -822,4 +827,34 @@ func (g *G) quantified() X {
 		return X{t, &ast.AnyExpression{Expr: l.N, Operator: op, Subquery: qn}, PCmp}
 	}
 	return X{t, &ast.AllExpression{Expr: l.N, Operator: op, Subquery: qn}, PCmp}
+}
+
+// matchAgainst draws MySQL full-text search: MATCH (col, ...) AGAINST ('text' [mode]). The parser
+// represents it as BinaryExpression{MATCH(cols) AGAINST AGAINST(text[, mode words])}; the mode words
+// are stored as written, so they are emitted as fixed-case tokens.
+func (g *G) matchAgainst() X {
+	g.use("match_against")
+	n := 1 + g.intn(2, "nmatchcols")
+	var ts [][]Tok
+	var ns []ast.Expression
+	for i := 0; i < n; i++ {
+		c := g.colRef()
+		ts = append(ts, c.T)
+		ns = append(ns, c.N)
+	}
+	var search X
+	if g.chance(25, "matchph") {
+		search = g.placeholder()
+	} else {
+		search = g.str()
+	}
+	t := cat(sym("MATCH", "("), commaJoin(ts), sym(")"), g.kw("AGAINST"), sym("("), search.T)
+	against := &ast.FunctionCall{Name: "AGAINST", Arguments: []ast.Expression{search.N}}
+	modes := [][]string{nil, {"IN", "NATURAL", "LANGUAGE", "MODE"}, {"IN", "BOOLEAN", "MODE"}, {"WITH", "QUERY", "EXPANSION"}}
+	if m := modes[g.intn(len(modes), "matchmode")]; m != nil {
+		t = cat(t, sym(m...))
+		against.Arguments = append(against.Arguments, &ast.LiteralValue{Value: strings.Join(m, " "), Type: "STRING"})
+	}
+	t = cat(t, sym(")"))
+	return X{t, &ast.BinaryExpression{Left: &ast.FunctionCall{Name: "MATCH", Arguments: ns}, Operator: "AGAINST", Right: against}, PPrimary}
 }
